@@ -75,6 +75,42 @@ check(
     "DESIGN.md section 5, C05",
 )
 
+check(
+    "C11", "law",
+    "PARTIAL CLAIM - only the clause 'changing a parameter changes the law on next read'. Seeded search over sequences of parameter writes (scalars and per-element / per-Gauss-point fields), plane-stress toggles, Set_C (Voigt / Kelvin-Mandel) and reads of C, S, Get_sqrt_C_S, Walpole_Decomposition on Isotropic, TransverselyIsotropic, Orthotropic and Anisotropic laws (2D/3D, unnormalised orthogonal axes), observed by 0-2 real Elastic simulations. Oracle: a law freshly constructed with the final parameters returns byte-identical C and S; every write raises needUpdate on the law and on every observer; observers reassemble the K of the final law; on every reached state C = C^T, C.S = I, eig(C) > 0, sqrt(C)^2 = C (invariants on visited states only).",
+    "NOT decided: SPD / inverse / plane-stress and plane-strain reductions / notation / rotation as statements over all admissible parameters (pure functions of the input; they are evaluated only on the states the histories reach). Parameter sets that a freshly built law rejects in the same way as the live one (differential rule) are counted, not flagged.",
+    "deterministic simulation: seeded write/read histories vs freshly-built reference law, ddmin-minimised replay files",
+    "DESIGN.md section 5, C11",
+)
+check(
+    "C17", "pf",
+    "PARTIAL CLAIM - the irreversibility clauses. Seeded search over load / unload / reverse / shear / zero-load histories of the staggered phase-field solver for all 14 splits x {AT1, AT2} x {History, HistoryDamage, BoundConstrain} on isotropic, transversely isotropic and anisotropic materials (2D), with varying tolConv / maxIter / convergence option, Save_Iter, Set_Iter(i, resetAll) rollback and injected back-end failures inside the staggered loop. At every saved step: the stored history energy never decreases pointwise; for the two damage-based solvers the saved nodal damage never decreases; BoundConstrain keeps the damage within [previous damage, 1] (the bounded least-squares back end of C04); an all-zero load history leaves the damage at zero. On every visited strain state: sigma+ + sigma- = C:eps, psi+ + psi- = 1/2 eps:C:eps, all finite.",
+    "NOT decided: the split identities over all strain tensors (generic and degenerate) and the projector-vs-eigendecomposition comparison (pure). One open finding (AT1 with a vanishing positive energy gives a singular damage system and NaN) is steered around in the random batch by a damage-free clamp and reproduced from its own replay file.",
+    "deterministic simulation: seeded load/solve/save/rollback/fault histories, monotonicity oracles over the recorded history, ddmin-minimised replay files",
+    "DESIGN.md section 5, C17",
+)
+check(
+    "C18", "hyper",
+    "PARTIAL CLAIM - the discrete energy-balance clause. Seeded trajectories of free motion (clamped or free bodies; static preload and/or random initial velocity) under the midpoint scheme with the gonzalez stress or the quadrature stress with energyTol = 1e-10, for NeoHookean, Mooney-Rivlin, Ciarlet-Geymonat and Saint-Venant-Kirchhoff laws, step-size changes between steps, Save_Iter / Set_Iter rollback and injected back-end failures inside a Newton iteration followed by a retry. Invariant after every step: |KE + W - E0| <= 1e-5 of the energy scale; a failed step leaves (u, v, a) untouched; rollback returns to the recorded energy. At the reference state each run starts from: W = 0, zero internal force, the unloaded static solve does not move the body.",
+    "NOT decided: stress = dW/de, tangent = d(stress)/de, objectivity, tangent/residual consistency of the nonlinear operators (pure). Runs with a non-converging or inverted step are discarded and counted. The mass matrix is the one the simulation assembles.",
+    "deterministic simulation: seeded dynamic trajectories with fault injection, conserved-quantity oracle, ddmin-minimised replay files",
+    "DESIGN.md section 5, C18",
+)
+check(
+    "C19", "mat",
+    "Seeded strain histories (increments, reversals, unloads, holds, direction changes; points of one element in different regimes) with commit / no-commit / repeat / retry-with-smaller-step call patterns on Behavior.Integrate for every accepted combination of yield surface (none, von Mises, Hill, Drucker-Prager), isotropic hardening (none, Linear, Voce, Swift), 0-2 kinematic components, rate law (none, Norton, Perzyna), 0-2 Maxwell branches, in 3D / plane strain / plane stress; a twin behaviour with solver='newton' in lock-step; Simulations.InElastic on a small mesh with injected back-end failures in the Newton loop. Oracles: stress inside the yield surface, accumulated plastic strain non-decreasing, traceless plastic strain (J2/Hill), dissipation sigma:deps - dpsi >= 0, algorithmic tangent = central difference of the returned stress away from kinks, both local solvers agree, sigma_zz = 0 in plane stress, exact linear elasticity without internal variables, Integrate is pure (committed state byte-identical, repeat calls identical), only Save_Iter advances the committed state, a failed-then-retried step equals the unfaulted one.",
+    "Admissibility / dissipation / tangent checks apply to rate-independent configurations; dissipation is skipped with Armstrong-Frederick recall. Points the code flags as non-converged are excluded and counted. Neutral-loading points (on the surface, not flowing) are excluded from tangent comparisons. Finite-difference steps are chosen above the solver tolerances.",
+    "deterministic simulation: seeded strain/commit/fault histories with invariant and purity oracles, ddmin-minimised replay files",
+    "DESIGN.md section 5, C19",
+)
+check(
+    "C20", "mpi",
+    "N = 2..12 simulated MPI ranks in one process (fake mpi4py, stub PETSc), each a baton-passing thread holding one partition produced by the real Mesher._Mesh_Get_Meshes(N) on TRI3/TRI6/QUAD4/QUAD8/TETRA4/TETRA10/HEXA8/PRISM6 meshes; a seeded scheduler chooses which rank runs between collectives (with starvation of one rank as a fault). Phase 1 (set model): every element and node owned exactly once, ghost layer = every foreign element touching an owned node and nothing else, local connectivity = owned + ghost rows of the global one, numbering / coordinates / tags preserved, same split twice, Mesh.Merge with mapping restores element count, measure and coordinates. Phase 2: rows of each rank's K at its owned dofs equal the global K; the distributed solution equals a dense global solve on every rank; Calc_Energy and the sum of Calc_Reaction equal the global values on every rank; per-rank iteration files hold the rank's slice and merge to the full vector after _Gather; per-rank Save / Load_Simu; gathered mesh equals the unpartitioned one; all ranks execute the same collective sequence (otherwise DEADLOCK with per-rank logs).",
+    "mpi4py and petsc4py are stubs (no real parallel execution, no real PETSc back end): what runs for real is EasyFEA's partitioner and parallel bookkeeping. The serial reference is EasyFEA's own serial assembly on the unpartitioned mesh of the same gmsh model. Merge of arbitrary coincident/disjoint mesh lists is only exercised on the partitions themselves.",
+    "deterministic simulation of a multi-rank world: seeded rank scheduling over rendez-vous collectives vs serial reference model, ddmin-minimised replay files",
+    "DESIGN.md section 5, C20",
+)
+
 ENGINES = [
     {"name": "simkit", "path": "/verif/simkit", "serves_properties": sorted(CHECKS), "kind_free_text": "deterministic simulator: seeded scheduler of public-API operations, fault-injecting file/solver/clock seams installed by module-attribute injection, reference models, ddmin shrinker, replay"},
 ]
